@@ -840,7 +840,8 @@ def registration_and_reinsertion_stream(ctx, res):
     # (b)
     for typed in (False, True):
         for defect in ("required-list-emptied", "schema-validator", "required-string-emptied", "field-validator"):
-            for route in ("setitem-own-position", "insert", "append", "assign-new-list", "extend", "iadd"):
+            for route in ("setitem-own-position", "insert", "append", "assign-new-list", "extend", "iadd", "extend-the-list-itself", "iadd-the-list-itself",
+                          "assign-to-another-field", "another-field-extend"):
                 log = []
                 win = cc.Schema()
                 win.name = cc.StringField(required=True)
@@ -856,6 +857,7 @@ def registration_and_reinsertion_stream(ctx, res):
                 W = cc.make_type(win, "ReWin") if typed else win
                 s = cc.Schema()
                 s.sched.windows = cc.ListField(W, default=lambda: [])
+                s.sched.spare = cc.ListField(W, default=lambda: [])
                 cfg = s()
                 cfg.sched.windows = [{"name": "night", "start": 20, "end": 24, "days": ["sat"]}, {"name": "early", "start": 2, "end": 6, "days": ["mon"]},
                                      {"name": "noon", "start": 11, "end": 13, "days": ["tue"]}]
@@ -886,14 +888,25 @@ def registration_and_reinsertion_stream(ctx, res):
                         cfg.sched.windows = list(lst)
                     elif route == "extend":
                         lst.extend([item])
-                    else:
+                    elif route == "iadd":
                         lst += [item]
+                    elif route == "extend-the-list-itself":
+                        lst.extend(lst)
+                    elif route == "iadd-the-list-itself":
+                        lst += lst
+                    elif route == "assign-to-another-field":
+                        cfg.sched.spare = lst
+                    else:
+                        cfg.sched.spare.extend(lst)
                     returned = True
                 except Exception:  # noqa
                     returned = False
                 case = {"stream": "reinsertion", "config_type": typed, "defect": defect, "route": route, "validators_invoked": list(log)}
                 res.case(stable(case), kind="reinsertion:" + route)
-                if returned:
+                if returned and route in ("extend-the-list-itself", "iadd-the-list-itself", "assign-to-another-field", "another-field-extend"):
+                    res.violate("C11:item-not-validated:proxy-fast-path", "item configurations handed over as the configuration's own validated list (`l.extend(l)`, `l += l`, "
+                                "`cfg.other = l`, `cfg.other.extend(l)`) were inserted without being checked, although one of them no longer meets the item schema's rule", case)
+                elif returned:
                     res.violate("C11:item-not-validated:reinserted", "an item configuration that no longer meets the item schema's rule was inserted into a configuration list "
                                 "without being checked (it had been in that list before)", case)
     # (c)
